@@ -150,7 +150,7 @@ def handle (cmd : String) (args : List String) : Option String :=
   | "ptags", mode :: n :: ks => some (
       if mode ≠ "same" ∧ mode ≠ "prom" ∧ mode ≠ "fresh" then "bad-op" else
       match n.toNat?, ks.mapM dec with
-      | some n, some keys => if n = 0 ∨ n > 16 then "bad-op" else ptags n keys
+      | some n, some keys => if n = 0 ∨ n > 16 ∨ keys = [] then "bad-op" else ptags n keys
       | _, _ => "bad-op")
   | "pdel", [a] => some (match dec a with
       | some v => pdel v
